@@ -40,16 +40,30 @@ def build_case(rng, tier, kind):
             if rng.random() < 0.5:
                 sts.append(g.insert(nrows=rng.randint(1, 3)))
         dump_every = 5
+    elif kind == "deep":
+        # one table grown until an internal node that is NOT the root splits (three levels: needs
+        # about 2000 rows with 9-cell leaves and 290-cell internal nodes), then point deletes all over
+        g = hist.Gen(rng, 1)
+        sts = [g.create(cols=[("a", "int", 0), ("b", "varchar", 10)])]
+        name = sts[0]["table"]
+        for i in range(205):
+            sts.append({"k": "insert", "table": name, "cols": [], "rows": [[i * 12 + j, "r"] for j in range(12)]})
+            if i == 120:
+                sts.append({"k": "delete", "table": name, "where": [[(("col", "", "a"), "=", 700)]]})
+        for key in (5, 600, 1200, 1700, 2300):
+            sts.append({"k": "delete", "table": name, "where": [[(("col", "", "a"), "=", key)]]})
+        sts.append({"k": "update", "table": name, "sets": [("b", "u")], "where": [[(("col", "", "a"), "<", 30)]]})
+        dump_every = 10 ** 9
     else:  # large: one table grown past internal-node splits (thorough tier)
         g = hist.Gen(rng, 1)
         sts = [g.create(cols=[("a", "int", 0), ("b", "varchar", 10)])]
         name = sts[0]["table"]
-        for i in range(rng.randint(250, 420)):
+        for i in range(rng.randint(125, 145)):      # ~1500-1700 rows: the root becomes an internal node of internal nodes
             sts.append(g.insert(name, nrows=12))
             if i % 40 == 7:
                 sts.append(g.delete(name))
                 sts.append(g.update(name))
-        dump_every = 60
+        dump_every = 45
     evs = []
     seen = []
     for i, st in enumerate(sts):
@@ -58,16 +72,18 @@ def build_case(rng, tier, kind):
             seen.append(st["table"])
         if kind == "large" and i % dump_every != 0 and i != len(sts) - 1:
             continue
+        if kind == "deep" and i not in (122, len(sts) - 1):
+            continue
         names = (seen[-6:] if kind == "catalog" else list(seen)) + ["sys_schema"]
         evs.append(("tables", names))
-        if i % dump_every == 0:
+        if i % dump_every == 0 or kind == "deep":
             evs.append(("dump",))
     return evs
 
 
 def generate(rng, tier):
-    plan = [("small", 24), ("split", 12), ("catalog", 4)] if tier == "quick" else \
-           [("small", 150), ("split", 60), ("catalog", 20), ("large", 3)]
+    plan = [("deep", 1), ("small", 24), ("split", 12), ("catalog", 4)] if tier == "quick" else \
+           [("deep", 1), ("small", 150), ("split", 60), ("catalog", 20), ("large", 3)]
     cases = []
     for kind, n in plan:
         for _ in range(n):
@@ -104,7 +120,7 @@ def run(ctx):
         cases = generate(ctx.rng, ctx.tier)
     evs = [c[1] for c in cases]
     outs = hist.run_histories(ctx, evs)
-    mm, sm = hist.eval_cases(ctx, "c01", evs, outs, shard=4 if ctx.tier == "quick" else 6)
+    mm, sm = hist.eval_cases(ctx, "c01", evs, outs, shard=1 if ctx.tier == "quick" else 4, strict=True)
     tagcount = {}
     nontrivial = 0
     nst = 0
@@ -155,7 +171,7 @@ def run(ctx):
             e2 = rebuild(sts)
             try:
                 o2 = hist.run_histories(ctx, [e2])
-                m2, s2 = hist.eval_cases(ctx, "c01_shrink", [e2], o2)
+                m2, s2 = hist.eval_cases(ctx, "c01_shrink", [e2], o2, strict=True)
             except RuntimeError:
                 return False
             return bool(m2 if which == "MM" else s2)
